@@ -15,7 +15,7 @@ func main() {
 	r.Rule("random chain-consistent event histories over a lazily generated transaction universe (chains, fan-in/out, multi-edges, conflict groups, coinbases, several credits per tx, gaps between blocks): see / mine (known, brand-new, confirmed double spend) / disconnect-to-height (incl. no-op, everything, gap heights, repeated) / abandon / repeated delivery / repeated credit marking / restart; a second phase interleaves lease / release / clock-advance / expiry-sweep events (fake clock through the wtxmgr hook) for the 'not leased' clause; after EVERY event and after every transaction of a block the real store is queried (Balance over a minconf x syncHeight grid, UnspentOutputs, OutputsToWatch, UnminedTxHashes) and compared with a ledger model that recomputes everything from facts. A history is non-trivial if it contains at least one disconnect or conflict removal; distinct = distinct event-kind sequences.")
 	r.Trusted("btcd wire/chainhash (tx hashing)", "walletdb/bdb as the storage engine (judged separately by C11)")
 	r.Assume("credited outputs have positive value (property wording; zero-value credits are DESIGN O-6)", "sync heights below the highest mined block are never queried (documented caveat of Balance)", "histories are chain-consistent: no child confirmed before its parent, no two confirmed conflicting transactions, no unconfirmed transaction conflicting with the chain")
-	n := r.N(150, 3000)
+	n := r.N(400, 4000)
 	cfg := ledger.Config{MinSteps: 20, MaxSteps: r.N(80, 200), Balance: true, Reopen: true}
 	dir := r.TempDir("c01")
 	defer os.RemoveAll(dir)
